@@ -177,6 +177,9 @@ def run_workers(binary, prop, seed, total, budget_s, outdir, extra_args=None):
             so, se = p.communicate()
             del procs[w]
             recs, _ = read(out)
+            for r in recs:
+                r["_proc_from"] = state[w]["from"]
+                r["_stride"] = NPROC
             records.extend(recs)
             if p.returncode == 0:
                 continue
@@ -202,6 +205,17 @@ def run_workers(binary, prop, seed, total, budget_s, outdir, extra_args=None):
 
 
 def replay_file(binary, path):
+    try:
+        doc = json.load(open(path))
+    except Exception:
+        doc = {}
+    if "prefix" in doc:
+        pf = doc["prefix"]
+        rec = prefix_replay(binary, doc["property"], doc["seed"], doc["run"], pf["from"], pf["stride"], pf.get("extra_args"))
+        if rec is None:
+            return 2, None
+        failed = isinstance(rec["verdict"], dict) and "Violations" in rec["verdict"]
+        return (1 if failed else 0), rec
     env = env_offline({"LD_PRELOAD": SHIM})
     r = subprocess.run([binary, "replay", "--file", path], env=env, capture_output=True, text=True)
     rec = None
@@ -212,7 +226,29 @@ def replay_file(binary, path):
     return r.returncode, rec
 
 
-def handle_violations(binary, prop, seed, records, opens, max_minimise=6, payload="scenario"):
+def prefix_replay(binary, prop, seed, run, proc_from, stride, extra_args=None):
+    """Re-execute, in one fresh process, every run the worker process had executed before `run`
+    and then `run` itself: reproduces failures that depend on state the library keeps across
+    compilations in a process (exactly what C16 is about)."""
+    out = os.path.join(WORK, "prefix-replay-%s-%d.jsonl" % (prop, run))
+    os.makedirs(WORK, exist_ok=True)
+    cmd = [binary, "run", "--prop", prop, "--seed", str(seed), "--from", str(proc_from), "--to", str(run + 1),
+           "--stride", str(stride), "--offset", "0", "--out", out, "--samples", "0"] + (extra_args or [])
+    subprocess.run(cmd, env=env_offline({"LD_PRELOAD": SHIM}), capture_output=True, text=True)
+    rec = None
+    if os.path.exists(out):
+        for line in open(out):
+            try:
+                r = json.loads(line)
+            except json.JSONDecodeError:
+                continue
+            if r["run"] == run:
+                rec = r
+        os.remove(out)
+    return rec
+
+
+def handle_violations(binary, prop, seed, records, opens, max_minimise=6, payload="scenario", extra_args=None):
     """Returns (violation_lines, known_lines, n_viol_runs, details)."""
     by_class = collections.OrderedDict()
     for r in records:
@@ -253,6 +289,17 @@ def handle_violations(binary, prop, seed, records, opens, max_minimise=6, payloa
         if code == 1 and rec is not None:
             vv = rec["verdict"].get("Violations", []) if isinstance(rec["verdict"], dict) else []
             same = any(y["invariant"] == inv and y["class"] == cls for y in vv)
+        if not same and "_proc_from" in r:
+            # not a function of the scenario alone: try with the history of the worker process
+            rec2 = prefix_replay(binary, prop, seed, r["run"], r["_proc_from"], r["_stride"], extra_args)
+            vv = rec2["verdict"].get("Violations", []) if (rec2 and isinstance(rec2["verdict"], dict)) else []
+            if any(y["invariant"] == inv and y["class"] == cls for y in vv):
+                doc = {"property": prop, "invariant": inv, "class": cls, "violation": x, "seed": seed, "run": r["run"],
+                       "prefix": {"from": r["_proc_from"], "to": r["run"] + 1, "stride": r["_stride"], "extra_args": extra_args or []},
+                       "note": "this failure does not reproduce from the scenario alone: it needs the earlier runs of the same process (state kept across compilations); the replay re-executes that history"}
+                json.dump(doc, open(final, "w"), indent=1)
+                same = True
+                log("  (reproduced only together with the %d earlier runs of its worker process)" % ((r["run"] - r["_proc_from"]) // r["_stride"]))
         if not same:
             log("HARNESS-ERROR: failure of %s (%s) in run %d does not replay from %s" % (prop, inv, r["run"], final))
             details.append({"invariant": inv, "class": cls, "replay": final, "replays": False})
@@ -299,7 +346,7 @@ def check_sim_b(prop, tier, seed, level_rule):
         log("HARNESS-ERROR: no runs completed")
         return 2
     opens, fixed = load_known()
-    vlines, klines, n_viol_runs, details, known_seen = handle_violations(BIN_B, prop, seed, records, opens)
+    vlines, klines, n_viol_runs, details, known_seen = handle_violations(BIN_B, prop, seed, records, opens, extra_args=["--depth", "1"] if tier == "thorough" else None)
     ok = sum(1 for r in records if r["verdict"] == "Ok")
     skips = collections.Counter(r["verdict"]["Skip"] for r in records if isinstance(r["verdict"], dict) and "Skip" in r["verdict"])
     shapes = set(r["shape"] for r in records if r.get("shape") and (r["verdict"] == "Ok" or (isinstance(r["verdict"], dict) and "Violations" in r["verdict"])))
@@ -353,10 +400,10 @@ def check_sim_b(prop, tier, seed, level_rule):
     for l in vlines:
         if l:
             print(l, flush=True)
-    if harness_err:
-        return 2
     if unlisted:
         return 1
+    if harness_err:
+        return 2
     if ok + n_viol_runs < 2 or len(shapes) < 2:
         log("HARNESS-ERROR: the workload produced fewer than 2 comparable runs; nothing was decided")
         return 2
@@ -429,7 +476,7 @@ def check_sim_a(tier, seed):
             else:
                 r["verdict"]["Violations"].append(v)
     opens, fixed = load_known()
-    vlines, klines, n_viol_runs, details, known_seen = handle_violations(BIN_A, prop, seed, records, opens, payload="workload")
+    vlines, klines, n_viol_runs, details, known_seen = handle_violations(BIN_A, prop, seed, records, opens, payload="workload", extra_args=depth_args or None)
     ok = sum(1 for r in records if r["verdict"] == "Ok")
     shapes = set(r["shape"] for r in records if r.get("shape"))
     inter = set(r["stats"]["interleaving"] for r in records if len(r["shape"].split("|")[0]) and r["shape"].split("|")[0] != "k1")
@@ -494,10 +541,10 @@ def check_sim_a(tier, seed):
     for l in vlines:
         if l:
             print(l, flush=True)
-    if harness_err:
-        return 2
     if unlisted:
         return 1
+    if harness_err:
+        return 2
     if len(shapes) < 2:
         log("HARNESS-ERROR: fewer than 2 distinct histories; nothing was decided")
         return 2
